@@ -352,6 +352,8 @@ mut("C12", "server-closed-stream-data-credit-lost", SV,
     "		sc.sendWindowUpdate(nil, int(f.Length)) // conn-level\n\n		if st != nil && st.resetQueued {", "		if st != nil && st.resetQueued {")
 mut("C12", "server-closed-body-data-credit-lost", SV,
     "				sc.sendWindowUpdate(nil, int(f.Length)-wrote)\n", "")
+mut("C12", "server-closed-body-padded-data-credit-lost", SV,
+    "				sc.sendWindowUpdate(nil, int(f.Length)-wrote)\n", "				sc.sendWindowUpdate(nil, len(data)-wrote)\n")
 mut("C12", "server-processdata-no-stream-window-check", SV,
     "		if !takeInflows(&sc.inflow, &st.inflow, f.Length) {", "		if !sc.inflow.take(f.Length) {")
 mut("C12", "server-body-read-credit-only-when-open", SV,
